@@ -810,8 +810,22 @@ func c03wake(c *an.Ctx) {
 						okPause, okUnPause = tg.units[0].val, !tg.units[0].val
 					}
 					ok, _ := loopDoesEach(fn, il, func(in ssa.Instruction, elems []ssa.Value) bool {
-						return (okPause && isInvokeOn(in, "Consumer", "Pause", func(v ssa.Value) bool { return valueIn(v, elems) })) ||
-							(okUnPause && isInvokeOn(in, "Consumer", "UnPause", func(v ssa.Value) bool { return valueIn(v, elems) }))
+						if (okPause && isInvokeOn(in, "Consumer", "Pause", func(v ssa.Value) bool { return valueIn(v, elems) })) ||
+							(okUnPause && isInvokeOn(in, "Consumer", "UnPause", func(v ssa.Value) bool { return valueIn(v, elems) })) {
+							return true
+						}
+						// the method chosen once, ahead of the loop, as a method expression: `notify(client)`
+						if ci, isCall := in.(ssa.CallInstruction); isCall && !ci.Common().IsInvoke() && an.StaticCallee(ci) == nil && len(ci.Common().Args) >= 1 && valueIn(ci.Common().Args[0], elems) {
+							names := methodExprNames(ci.Common().Value, "Consumer")
+							all := len(names) > 0
+							for _, nm := range names {
+								if !((okPause && nm == "Pause") || (okUnPause && nm == "UnPause")) {
+									all = false
+								}
+							}
+							return all
+						}
+						return false
 					})
 					if ok {
 						loop = il
@@ -1022,4 +1036,29 @@ func c03notify(c *an.Ctx) {
 		}
 		c.Check(listens, pump, "pump selects on ReadyStateChan", pump.Pos(), "", "the consumer pump no longer receives from ReadyStateChan: readiness changes are never noticed while it is parked")
 	}
+}
+
+// methodExprNames: v is a function value that is, on every path, a method expression of the named interface
+// (`Consumer.Pause`); the method names, or nil.
+func methodExprNames(v ssa.Value, iface string) []string {
+	var out []string
+	for _, o := range originsOrNone(v) {
+		f, ok := an.Strip(o).(*ssa.Function)
+		if !ok || f.Synthetic == "" {
+			return nil
+		}
+		m, ok := f.Object().(*types.Func)
+		if !ok || m == nil {
+			return nil
+		}
+		sig, _ := m.Type().(*types.Signature)
+		if sig == nil || sig.Recv() == nil {
+			return nil
+		}
+		if nt, ok := sig.Recv().Type().(*types.Named); !ok || nt.Obj().Name() != iface {
+			return nil
+		}
+		out = append(out, m.Name())
+	}
+	return out
 }
